@@ -570,6 +570,13 @@ func (c *specCtx) call(x *SCall) Val {
 			switch u := v.Ty.Underlying().(type) {
 			case *types.Slice:
 				_, ln, _ := vc.sliceParts(v)
+				if !strings.Contains(v.S, "_q") {
+					// type invariant of the slice value (length range); always true, so it may be stated globally
+					if f := vc.eng.sorts.rangeFact(v.S, v.Ty, 0); f != "" && !vc.rangeAsserted[f] {
+						vc.rangeAsserted[f] = true
+						vc.typeFacts = append(vc.typeFacts, f)
+					}
+				}
 				return c.intV(ln)
 			case *types.Map:
 				return c.intV(fmt.Sprintf("(card_%s %s)", v.Sort, v.S))
